@@ -120,3 +120,43 @@ Definition wobs (w : wrapper) : str * str := (w_invoke w, w_ret w).
 (* library-level observation of one CommandInfo: name, file_path, return_type, is_async *)
 Definition cmd_obs (root : str) (c : cmd) : str * str * str * bool :=
   (unraw (fn_name (c_fn c)), path_string root (c_file c), ret_string (c_fn c), fn_async (c_fn c)).
+
+(* ---- the build-script route: BuildSystem::run_generation, as far as commands.ts goes ----
+   build/mod.rs generate_bindings + OutputManager::finalize_generation. The state is what the
+   output directory holds: None = no commands.ts, Some p = commands.ts generated from the
+   command list p (the .typecache written with it describes p).
+   - no command discovered: nothing is generated and the empty file list makes
+     cleanup_old_files remove commands.ts;
+   - GenerationCache hit with every output present: nothing is written, the list of the
+     existing files is handed to finalize_generation, commands.ts stays what it was. The cache
+     key of the code covers more than the CommandInfo fields compared here (parameters,
+     structs, events, configuration - property C08); every hit of the code is a hit here;
+   - otherwise commands.ts is rewritten from the commands of this run. *)
+Definition obs4_eqb (a b : str * str * str * bool) : bool :=
+  match a, b with
+  | (n1, p1, r1, a1), (n2, p2, r2, a2) => str_eqb n1 n2 && str_eqb p1 p2 && str_eqb r1 r2 && Bool.eqb a1 a2
+  end.
+Fixpoint list_eqb {A} (e : A -> A -> bool) (l1 l2 : list A) : bool :=
+  match l1, l2 with
+  | [], [] => true
+  | x :: r1, y :: r2 => e x y && list_eqb e r1 r2
+  | _, _ => false
+  end.
+Definition cache_hit (root : str) (p cs : list cmd) : bool :=
+  list_eqb obs4_eqb (map (cmd_obs root) p) (map (cmd_obs root) cs).
+Definition build_run (root : str) (st : option (list cmd)) (l : layout) : option (list cmd) :=
+  match analyze root l with
+  | [] => None
+  | cs => match st with
+          | Some p => if cache_hit root p cs then Some p else Some cs
+          | None => Some cs
+          end
+  end.
+Definition commands_ts (st : option (list cmd)) : list wrapper :=
+  match st with Some p => emit p | None => [] end.
+(* the wrappers in the output directory after each run of a history of source trees *)
+Fixpoint build_history (root : str) (st : option (list cmd)) (ls : list layout) : list (list wrapper) :=
+  match ls with
+  | [] => []
+  | l :: r => let st' := build_run root st l in commands_ts st' :: build_history root st' r
+  end.
